@@ -215,7 +215,14 @@ ModInLanguage(md) ==
   /\ \A i \in DOMAIN md.rects.rs :
         LET r == md.rects.rs[i] IN \A c \in 1..4 : r[c] >= 0 /\ r[c] <= CMAX
   \* (a terminal may carry rectangles: the reader accepts them -- without regions, as for every hard module -- and
-  \*  derives the terminal's centre and area from them; only a terminal WITHOUT rectangles has area zero)
+  \*  derives a centre and an area from them.  Such documents belong to C04's quantifier, "all netlists the reader
+  \*  accepts", and are judged there on the round trip only.  For C05 a terminal is a point: its statement gives every
+  \*  terminal area zero, so a terminal with rectangles is OUTSIDE C05's well-formed universe -- see PointTerminals)
+\* C05's FORMAT rule "a terminal is a point": no terminal of the document has rectangles.  Documents that break it are
+\* neither well-formed documents of C05's quantifier nor one of its eleven listed defects: C05 neither generates nor
+\* judges them (Read / WellFormed describe what the reader does with them, which is C04's business).
+TerminalWithRects(md) == md.flags.terminal = 1 /\ md.rects.rs # <<>>
+PointTerminals(d) == \A i \in DOMAIN d.mods : ~TerminalWithRects(d.mods[i])
 InLanguage(d) ==
   /\ \A i \in DOMAIN d.mods : ModInLanguage(d.mods[i])
   /\ Distinct([i \in DOMAIN d.mods |-> d.mods[i].name])      \* YAML mapping keys are unique
@@ -376,8 +383,9 @@ Write(nl) == [mods |-> [i \in DOMAIN nl.mods |-> WriteModule(nl.mods[i])],
 (***************************************************************************)
 (* Derive: the quantities C05 names, defined on the SOURCE DOCUMENT.       *)
 (***************************************************************************)
-\* module area: sum of region areas; of rectangle areas for hard modules; zero for terminals (that have no rectangles)
-DefArea(md) == IF DHard(md) THEN RectsArea(md.rects.rs)       \* terminals included: zero when they have no rectangles
+\* module area: sum of region areas; of rectangle areas for hard modules; zero for terminals
+DefArea(md) == IF DTerminal(md) THEN 0
+               ELSE IF DHard(md) THEN RectsArea(md.rects.rs)
                ELSE SeqSum([i \in DOMAIN md.area.ent |-> md.area.ent[i][2]])
 \* centre: centroid of the rectangles when there are any, else the stated centre (or none)
 DefCenter(md) == IF md.rects.rs # <<>> THEN Centroid(md.rects.rs) ELSE md.center
@@ -621,7 +629,8 @@ DeepDocs == { [Soft(1, 1, 1, 1) EXCEPT !.center = C2(0, 0)],
 \* thorough goes on to 4 modules (one net) or stays at 3 modules with two nets
 MaxMods == IF lvl = "wide" THEN 2 ELSE IF Thorough THEN 4 ELSE 3
 MaxNets == IF lvl = "wide" THEN 1 ELSE IF Thorough /\ Len(doc.mods) = 3 THEN 2 ELSE 1
-ModulePool == IF lvl = "wide" THEN WideDocs ELSE DeepDocs
+\* the terminals with rectangles are part of C04's universe only (DEFECTS = FALSE)
+ModulePool == IF lvl = "wide" THEN (IF DEFECTS THEN WideDocs \ TermRectDocs ELSE WideDocs) ELSE DeepDocs
 \* pin lists over the modules present (by position) with the weights they are combined with
 W0 == <<>>
 PinWeights(k) ==
@@ -663,7 +672,7 @@ Defect == /\ DEFECTS /\ Complete /\ ~EMIT /\ phase' = "defect"
           /\ UNCHANGED <<lvl, n, y, n2, y2>>
 \* behaviour generation: the documents; their injections are printed by FpefTrace!InjectSpec (same Inject)
 Emit == /\ Complete /\ EMIT /\ phase' = "emitted" /\ UNCHANGED <<lvl, doc, n, y, n2, y2, inj>>
-        /\ PrintT(ToJson([lvl |-> lvl, doc |-> doc]))
+        /\ PrintT(ToJson([lvl |-> lvl, doc |-> doc, c05 |-> B(PointTerminals(doc))]))     \* c05 = 1: also in C05's universe
 
 Next == AddModule \/ AddNet \/ Load \/ Save \/ Reload \/ Resave \/ Defect \/ Emit
 Spec == Init /\ [][Next]_vars
@@ -673,6 +682,7 @@ Spec == Init /\ [][Next]_vars
 (***************************************************************************)
 \* the generators stay inside the modelled language, and every constructed document is well-formed
 InvLanguage == InLanguage(doc)
+InvPointTerminals == DEFECTS => PointTerminals(doc)
 InvBuildWellFormed == phase = "build" => WellFormed(doc)
 \* the two sides of the reader agree: accepted iff well-formed (on every document reached, defects included)
 InvReadIffWellFormed == phase \in {"build", "defect"} => (Read(doc).ok <=> WellFormed(doc))
@@ -703,7 +713,7 @@ InvDerived == phase = "loaded" =>
    /\ \A i \in DOMAIN n.mods :
         /\ SeqSum([j \in DOMAIN n.mods[i].areas |-> n.mods[i].areas[j][2]]) = dv.area[i]
         /\ n.mods[i].center = dv.center[i]
-        /\ (KTerminal(n.mods[i].kind) /\ n.mods[i].rects = <<>> => dv.area[i] = 0)
+        /\ (KTerminal(n.mods[i].kind) => dv.area[i] = 0)
    /\ SameBag(Concat([i \in DOMAIN n.mods |-> n.mods[i].rects]), dv.allrects)
    /\ SameBag(Concat([i \in DOMAIN n.mods |-> IF KFixed(n.mods[i].kind) THEN n.mods[i].rects ELSE <<>>]), dv.fixedrects)
 \* the centroid lies in the bounding box of the rectangles; one rectangle: its own centre
